@@ -1040,6 +1040,11 @@ class Extrusion(Primitive):
         rotation_Z[2, 3] = self.primitive.height / 2.0
         # combine the 2D OBB transformation with the 2D projection transform
         to_3D = np.dot(self.primitive.transform, rotation_Z)
+        if np.linalg.det(to_3D[:3, :3]) < 0.0:
+            # a mirrored extrusion would hand its reflection to the box:
+            # a box is symmetric about its center so reversing one axis
+            # describes the same box with a proper rotation
+            to_3D[:3, 0] *= -1.0
         obb = Box(transform=to_3D, extents=extents, mutable=False)
         return obb
 
